@@ -99,8 +99,23 @@ def variant_fields(name: str) -> Optional[list]:
     raise ValueError(name)
 
 
+SL_SCHEMAS = {
+    "a": [{"id": 1, "name": "a", "type": "long", "required": False}],
+    "b": [{"id": 1, "name": "b", "type": "string", "required": False}],
+    "ab": [{"id": 1, "name": "a", "type": "long", "required": False}, {"id": 2, "name": "b", "type": "string", "required": False}],
+}
+
+
 def gen(rng: random.Random, tier: str, idx: int) -> dict:
     backend = "local" if rng.random() < 0.7 else "s3"
+    if rng.random() < 0.1:
+        # a table created WITHOUT a schema (legal): every append passes its own schema; same or different from the
+        # earlier ones, under one schema_id or another, through a reused or a fresh handle
+        first = rng.choice(list(SL_SCHEMAS))
+        steps = [{"schema": first if (j == 0 or rng.random() < 0.55) else rng.choice(list(SL_SCHEMAS)),
+                  "sid": rng.choice([1, 1, 2]), "fresh": rng.random() < 0.5, "n": rng.randint(1, 2)}
+                 for j in range(rng.randint(2, 5))]
+        return {"backend": backend, "mode": "schemaless", "steps": steps}
     steps = []
     for j in range(rng.randint(3, 8)):
         if rng.random() < 0.22:
@@ -124,7 +139,7 @@ def shrink(plan: dict):
             del p["steps"][j]
             yield p
     for j, s in enumerate(plan["steps"]):
-        if s["kind"] == "records" and len(s["rows"]) > 1:
+        if s.get("kind") == "records" and len(s["rows"]) > 1:
             for r in range(len(s["rows"])):
                 p = copy.deepcopy(plan)
                 del p["steps"][j]["rows"][r]
@@ -220,7 +235,82 @@ def py_filter(rows: List[tuple], col: str, op: str, val) -> List[tuple]:
     return out
 
 
+def execute_schemaless(plan: dict, scratch: str) -> dict:
+    common.fresh_scratch(scratch)
+    seed = plan.get("run_seed", 0)
+    backend = plan["backend"]
+    ph = Phase(plan, scratch, backend, seed, core.Policy(), max_steps=60000)
+    w, sim = ph.world, ph.sim
+    V: List[dict] = []
+    trace = []
+    model_rows: List[tuple] = []
+    flags = {"acc": 0, "rej": 0, "diff": 0}
+
+    def body():
+        import datashard
+        from datashard import Schema
+        t = datashard.create_table(w.table_path)
+        first = None
+        for si, st in enumerate(plan["steps"]):
+            if st.get("fresh"):
+                t = datashard.load_table(w.table_path)
+            fields = copy.deepcopy(SL_SCHEMAS[st["schema"]])
+            names = [f["name"] for f in fields]
+            rows = [{n: (si * 10 + k if n == "a" else f"s{si}.{k}") for n in names} for k in range(st["n"])]
+            rel = "first" if first is None else ("same" if st["schema"] == first else "differs")
+            desc = (f"schema-less table, step {si}: append {st['n']} row(s) with schema {names} (id {st['sid']}, {rel} as the "
+                    f"first append's) through a {'fresh' if st.get('fresh') else 'reused'} handle")
+            try:
+                t.append_records([dict(r) for r in rows], schema=Schema(schema_id=st["sid"], fields=fields))
+                accepted = True
+            except (core.SimDead, core.SimKilled, NameError, ImportError, AttributeError):
+                raise
+            except Exception as e:
+                accepted = False
+                trace.append((desc, f"rejected {type(e).__name__}"))
+            if not accepted:
+                flags["rej"] += 1
+                sim.probe("schemaless_rejected")
+                continue
+            trace.append((desc, "accepted"))
+            flags["acc"] += 1
+            sim.probe("schemaless_accepted")
+            if first is None:
+                first = st["schema"]
+            if rel == "differs":
+                flags["diff"] += 1
+                sim.probe("schemaless_other_schema_accepted")
+            model_rows.extend(ir.row_key(r) for r in rows)
+            sig = f"schemaless|{rel}|{'fresh' if st.get('fresh') else 'reused'}"
+            for hname, h in (("same", t), ("fresh", datashard.load_table(w.table_path))):
+                try:
+                    got = sorted((ir.row_key(r) for r in h.scan()), key=repr)
+                except (core.SimDead, core.SimKilled):
+                    raise
+                except Exception as e:
+                    V.append({"clause": "E.accepted_breaks_scan", "sig": f"E.accepted_breaks_scan|{sig}",
+                              "msg": f"[{backend}] {desc}: accepted, then scan() through the {hname} handle raises "
+                                     f"{type(e).__name__}: {str(e)[:120]}"})
+                    return
+                if got != sorted(model_rows, key=repr):
+                    V.append({"clause": "E.rows_differ", "sig": f"E.rows_differ|{sig}",
+                              "msg": f"[{backend}] {desc}: accepted, but scan() through the {hname} handle returns {got[-2:]} ... "
+                                     f"instead of the rows supplied {sorted(model_rows, key=repr)[-2:]}"})
+                    return
+    sim.spawn(sim.proc("p0"), "h", body)
+    ph.run()
+    if sim.outcome != "ok":
+        V = []
+    res = common.assemble(ph, V[:1], flags["acc"] > 1, backend + "/schemaless", {"steps": trace})
+    import hashlib
+    res["sched_sig"] = hashlib.sha1(repr((backend, trace)).encode()).hexdigest()
+    w.cleanup()
+    return res
+
+
 def execute(plan: dict, scratch: str, replay: Optional[dict] = None) -> dict:
+    if plan.get("mode") == "schemaless":
+        return execute_schemaless(plan, scratch)
     from datashard import DataFile, FileFormat, Schema
     import pyarrow as pa
     import pyarrow.parquet as pq
